@@ -133,6 +133,19 @@ def gen(seed):
         for L in layers:
             if L['kind'] == 'class' and not L['bases'] and rng.random() < 0.6:
                 L['unit_base'] = True
+        # (only if every class layer still has a consistent MRO with the extra base)
+        U = type('U', (object,), {})
+        built = {}
+        try:
+            for L in layers:
+                if L['kind'] == 'class':
+                    bs = tuple(built[b] for b in L['bases'] if b in built)
+                    if L.get('unit_base'):
+                        bs = (U,)
+                    built[L['id']] = type('X%d' % L['id'], bs or (object,), {})
+        except TypeError:
+            for L in layers:
+                L.pop('unit_base', None)
     full = ['%s.%s' % (L['module'], L['name']) for L in layers]
     if len(set(full)) != len(full):
         for i, L in enumerate(layers):
